@@ -63,6 +63,11 @@ func queueModel(n int) porcupine.Model {
 	}
 }
 
+type keptSnap struct {
+	msgs []rtcm.Message
+	ids  []uint64
+}
+
 func msgWithID(id uint64) rtcm.Message {
 	b := make([]byte, 8)
 	binary.BigEndian.PutUint64(b, id)
@@ -194,6 +199,7 @@ func runC18(c *hx.Ctx) *hx.Outcome {
 	q.NextIndex = ff
 	o.ScenHash ^= uint64(ff) * 0x9e3779b97f4a7c15
 	var ops []porcupine.Operation
+	var kept []keptSnap
 	clock := int64(0)
 	nextID := uint64(0)
 	oversize := 0
@@ -226,7 +232,9 @@ func runC18(c *hx.Ctx) *hx.Outcome {
 					} else {
 						call := tick()
 						s.Logf("%s invoke Get @%d", name, call)
-						got := idsOf(q.GetMessages())
+						snap := q.GetMessages()
+						got := idsOf(snap)
+						kept = append(kept, keptSnap{snap, got})
 						ret := tick()
 						s.Logf("%s return Get %v @%d", name, got, ret)
 						ops = append(ops, porcupine.Operation{ClientId: ci, Input: qIn{}, Call: call, Output: qOut{ids: got}, Return: ret})
@@ -263,6 +271,13 @@ func runC18(c *hx.Ctx) *hx.Outcome {
 		o.Fail("C18/over-capacity", "the queue held %d messages, capacity %d", oversize, n)
 		return o
 	}
+	// a snapshot belongs to its caller: later additions must not change it
+	for _, k := range kept {
+		if idsKey(idsOf(k.msgs)) != idsKey(k.ids) {
+			o.Fail("C18/snapshot-changed-later", "a snapshot that read %v when it was returned reads %v after later additions", k.ids, idsOf(k.msgs))
+			return o
+		}
+	}
 	res, _ := porcupine.CheckOperationsVerbose(queueModel(n), ops, 10*time.Second)
 	switch res {
 	case porcupine.Illegal:
@@ -298,6 +313,7 @@ func runC18Sequential(c *hx.Ctx, o *hx.Outcome, n, ff int) *hx.Outcome {
 	var model []uint64
 	snapEvery := 1 + t.S(50)
 	o.Probe("sequential-long-runs")
+	var keptSeq []keptSnap
 	warpAt, warpTo := -1, 0
 	if t.SBool(1, 3) && ffApplicable {
 		// a fast-forward in the middle of the history, after some snapshots
@@ -319,11 +335,21 @@ func runC18Sequential(c *hx.Ctx, o *hx.Outcome, n, ff int) *hx.Outcome {
 			return o
 		}
 		if i%snapEvery == 0 || i == total {
-			got := idsOf(q.GetMessages())
+			snap := q.GetMessages()
+			got := idsOf(snap)
+			if len(keptSeq) < 40 {
+				keptSeq = append(keptSeq, keptSnap{snap, got})
+			}
 			if idsKey(got) != idsKey(model) {
 				o.Fail("C18/wrong-snapshot", "capacity %d, after %d additions: snapshot %v, expected the last %d: %v", n, i, got, len(model), model)
 				return o
 			}
+		}
+	}
+	for _, k := range keptSeq {
+		if idsKey(idsOf(k.msgs)) != idsKey(k.ids) {
+			o.Fail("C18/snapshot-changed-later", "a snapshot that read %v when it was returned reads %v after later additions", k.ids, idsOf(k.msgs))
+			return o
 		}
 	}
 	if c.Detail {
